@@ -44,3 +44,15 @@ def run(tier, seed):
 
 def replay(path):
     return verif.standard_replay(specs(), path)
+
+
+# sensitivity mutations (tools/sens.py C15): (file, old, new) edits on a scratch copy; each must be caught by the quick tier
+MUTATIONS = [
+    dict(name="escape-string-drops-apostrophe", edits=[("src/util.cpp", "\t\t\tcase '\\'': content+=\"&#39;\"; break;\n", "")]),
+    dict(name="urlencode-star-unreserved", edits=[("src/util.cpp", "\t\t\t\tcase '~':\n", "\t\t\t\tcase '~':\n\t\t\t\tcase '*':\n")]),
+    dict(name="b64-encoded_size-case2", edits=[("src/base64.cpp", "case 2: return s/3*4+3;", "case 2: return s/3*4+2;")]),
+    dict(name="b64-bdecode-shift", edits=[("src/base64.cpp", "out[ 1 ] = (unsigned char ) (in[1] << 4 | in[2] >> 2);", "out[ 1 ] = (unsigned char ) (in[1] << 4 | in[2] >> 3);")]),
+    dict(name="escape-streambuf-amp-short", edits=[("src/util.cpp", "ok = output.sputn(\"&amp;\",5)==5;", "ok = output.sputn(\"&amp;\",5)>=0;")]),
+    dict(name="urldecode-needs-4", edits=[("src/util.cpp", "if(end-begin >= 3 && http::protocol::xdigit(begin[1])", "if(end-begin >= 4 && http::protocol::xdigit(begin[1])")]),
+    dict(name="b64-decode-empty-regression", edits=[("src/base64.cpp", "\t\toutput.clear();\n", "")]),
+]
